@@ -67,6 +67,29 @@ CHECKS['C34'] = dict(
     note='Not decided: WHEN evaluation, OLD/NEW value resolution, triggers of child tables touched by referential actions.',
     design='§4 C34')
 
+CHECKS['C10'] = dict(
+    technique='must-pass-through (no shortcut) analysis of uniqueness validators; inter-procedural must-precede of row validation before insert/update mutation sites',
+    text='Decides that every PRIMARY KEY/UNIQUE uniqueness validator, once it fetched the table, can answer Ok only after consulting the '
+         'table\'s key structures (no shortcut path), and that every insert/update mutation site reachable from INSERT/UPDATE is preceded '
+         'on every path by the row validators of its statement. Path properties: they hold for every statement history.',
+    note='Not decided: correctness of the hash indexes themselves (C15), CHECK expression semantics, value-level flags that switch '
+         'validators on (bulk transfer: presence of the calls is checked instead).',
+    design='§4 C10')
+CHECKS['C12'] = dict(
+    technique='inter-procedural must-precede of FK child-side / parent-side checks before mutation sites (with the foreign_keys.is_empty idiom); per-variant arm table of the ReferentialAction dispatch',
+    text='Decides that insert/update sites are preceded by the child-side foreign-key validation wherever the schema has foreign keys, that '
+         'row deletion/truncation sites are preceded by the parent-side check, and that the ReferentialAction match is exhaustive, its '
+         'NO ACTION/RESTRICT arms reject and its CASCADE/SET NULL/SET DEFAULT arms call the action of the same name.',
+    note='Not decided: key comparison semantics, cascade order, whether a SET DEFAULT value has a parent.',
+    design='§4 C12')
+CHECKS['C33'] = dict(
+    technique='must-follow (catalog re-registration after Table::schema_mut), must-pass-through lists for DROP/CREATE paths, no-error-exit after the first of two registration steps',
+    text='Decides dual-schema coherence: every executor function that changes a stored table schema re-registers it in the catalog on every '
+         'successful path; DROP TABLE / DROP INDEX / CREATE TABLE pass through both the catalog and the storage side; CREATE INDEX performs '
+         'both registration steps and is examined for error exits between them.',
+    note='Not decided: identifier case handling (runtime strings); I/O failures of disk-backed index creation.',
+    design='§4 C33')
+
 NOT_APPLICABLE = {
     'C01': 'Equality of result multisets with a reference engine is a value-level semantic equivalence over all queries and data; no structural necessary condition beyond those claimed under C06/C21/C24 exists and a static rule cannot stand in for an oracle.',
     'C03': 'Columnar-vs-row agreement is determined by computed values (empty input, NULL handling, sums); a rejected shape falls back safely, so no table-agreement obligation exists whose breach necessarily changes results.',
